@@ -357,18 +357,102 @@ def twin_value(kind2: str, v: Any) -> Any:
     return None
 
 
+# ---------------------------------------------------------------------------------- field ids
+# A schema's field ids key every DataFile's bounds; create_manifest_file stores each key as str(id), read_manifest_file reads it
+# back as int(key).  Whatever Schema(...) ACCEPTS as ids is a legitimate input: plain ints in any order and magnitude, and -- as
+# far as the constructor lets them through -- the other objects a caller or a JSON document can carry as an "id": objects that
+# are pairwise != (the constructor's duplicate test) but which str() / int(str()) map onto one another (1 and "1", 2 and " 2",
+# 7 and "07", 1 and "+1", 10 and "1_0"), non-canonical spellings on their own, floats, bools, None.
+INT_IDS = [1, 2, 3, 4, 5, 7, 10, 12, 100, 1000, 0, -1, 2**31, 2**63, 2**70]
+
+
+def id_twins(k: int) -> List[Any]:
+    """Objects that are not the int k (and != k unless numeric) but that str() / int(str()) carry onto k."""
+    out: List[Any] = [str(k), f" {k}", f"{k} ", f"{k}\n"]
+    if k >= 0:
+        out += [f"0{k}", f"+{k}", f"00{k}"]
+    if k >= 10:
+        out.append(f"{str(k)[0]}_{str(k)[1:]}")
+    if k in (0, 1):
+        out.append(bool(k))
+    return out
+
+
+def gen_field_ids(rng, n: int, unusual: float = 0.5, meet: float = 0.6) -> List[Any]:
+    """n pairwise-!= candidate field ids: ints (any order / magnitude); with probability `unusual`, some of them replaced or
+    accompanied by twins of an int (of one already chosen, so that two ids of the schema meet under str(), or of a fresh one)."""
+    ids: List[Any] = []
+    want_unusual = rng.random() < unusual
+    guard = 0
+    while len(ids) < n and guard < 200:
+        guard += 1
+        r = rng.random()
+        ints_so_far = [i for i in ids if type(i) is int]
+        if want_unusual and ints_so_far and r < meet:
+            cand = rng.choice(id_twins(rng.choice(ints_so_far)))
+        elif want_unusual and (r < meet + (1 - meet) * 0.4 if ints_so_far else r < 0.3):
+            cand = rng.choice(id_twins(rng.choice(INT_IDS[:10])) + [None, 1.5, 2.0, "a", ""])
+        else:
+            cand = rng.choice(INT_IDS[:8] if rng.random() < 0.8 else INT_IDS)
+        if any(cand == i for i in ids):         # Schema's duplicate test (set membership: ==)
+            continue
+        ids.append(cand)
+    while len(ids) < n:
+        ids.append(max([i for i in ids if type(i) is int] + [0]) + 1)
+    return ids
+
+
+def schema_accepts(ids: List[Any], kinds: Optional[List[str]] = None) -> bool:
+    """Does the real Schema constructor accept these field ids?"""
+    from datashard.data_structures import Schema
+    kinds = kinds or ["long"] * len(ids)
+    try:
+        Schema(schema_id=1, fields=[{"id": i, "name": f"c{n}", "type": k, "required": False} for n, (i, k) in enumerate(zip(ids, kinds))])
+        return True
+    except (ValueError, TypeError):
+        return False
+
+
+ID_STATS = {"offered_non_int": 0, "accepted_non_int": 0}
+
+
+def accepted_field_ids(rng, n: int, unusual: float = 0.5, meet: float = 0.6) -> List[Any]:
+    """Field ids the real Schema constructor accepts (what it rejects is no input of the library): the generated ids when it takes
+    them, plain ints otherwise."""
+    ids = gen_field_ids(rng, n, unusual, meet)
+    non_int = any(type(i) is not int for i in ids)
+    if non_int:
+        ID_STATS["offered_non_int"] += 1
+    if schema_accepts(ids):
+        if non_int:
+            ID_STATS["accepted_non_int"] += 1
+        return ids
+    plain = rng.sample(INT_IDS[:10], n)
+    return plain
+
+
+def id_text(i: Any) -> str:
+    return f"{i!r}:{type(i).__name__}"
+
+
 def bounds_same(orig: Optional[Dict[int, Any]], back: Optional[Dict[int, Any]]) -> bool:
     """Same field ids, and under each the same value of the same type ({} and None both mean `no bounds`)."""
     o, b = orig or {}, back or {}
-    return set(o) == set(b) and all(same(o[k], b[k]) for k in o)
+    return sorted(map(id_text, o)) == sorted(map(id_text, b)) and all(same(o[k], b[k]) for k in o)
 
 
-def bmap_json(b: Optional[Dict[int, Any]]) -> Any:
+def bmap_json(b: Optional[Dict[Any, Any]]) -> Any:
+    # field ids are JSON values themselves (int / str / float / bool / None) and keep their type in the replay file
     return None if b is None else [[k, val_json(v)] for k, v in b.items()]
 
 
-def bmap_unjson(j: Any) -> Optional[Dict[int, Any]]:
-    return None if j is None else {int(k): val_unjson(v) for k, v in j}
+def bmap_unjson(j: Any) -> Optional[Dict[Any, Any]]:
+    return None if j is None else {k: val_unjson(v) for k, v in j}
+
+
+class ManifestUnreadable(Exception):
+    """read_manifest_file could not parse a manifest create_manifest_file wrote (e.g. a field id whose str() is no int literal):
+    every read of such a table fails, with and without pruning alike -- not a statement about pruning; counted, not judged."""
 
 
 class ManifestBench:
@@ -392,10 +476,13 @@ class ManifestBench:
                         added_snapshot_id=7 if existing else None, sequence_number=1 if existing else None)
 
     def trip(self, added: List[Tuple[Any, Any]], existing: List[Tuple[Any, Any]], want_raw: bool = False,
-             objects: Optional[Tuple[List[Any], List[Any]]] = None) -> Tuple[List[Any], List[Any], List[Any]]:
+             objects: Optional[Tuple[List[Any], List[Any]]] = None, second_read: Optional[List[Any]] = None) -> Tuple[List[Any], List[Any], List[Any]]:
         """One create_manifest_file(added, existing_files=existing) -> read_manifest_file.  Returns (the DataFile objects handed to
         the writer, in entry order; the DataFiles read back; the raw Avro records if asked).  `objects` re-uses DataFile objects
-        that were already written once (a retried commit rebuilds its manifests from the same in-memory objects)."""
+        that were already written once (a retried commit rebuilds its manifests from the same in-memory objects; a partial delete
+        carries over the DataFiles it READ from the old manifest).  `second_read`: a list that receives the DataFiles of a second,
+        independent read_manifest_file of the same manifest (objects nobody has looked into yet).  A manifest the reader cannot
+        parse raises ManifestUnreadable."""
         if objects is None:
             a = [self.datafile(lo, hi) for lo, hi in added]
             e = [self.datafile(lo, hi, True) for lo, hi in existing]
@@ -404,7 +491,16 @@ class ManifestBench:
         mf = self.fm.create_manifest_file(a, snapshot_id=9, existing_files=e, sequence_number=2)
         self.manifests += 1
         path = mf.manifest_path.lstrip("/")
-        back = self.fm.read_manifest_file(path)
+        try:
+            back = self.fm.read_manifest_file(path)
+            if second_read is not None:
+                second_read.extend(self.fm.read_manifest_file(path))
+        except ValueError as ex:
+            try:
+                self.table.storage.delete_file(path)
+            except Exception:   # noqa: BLE001  (scratch hygiene only)
+                pass
+            raise ManifestUnreadable(repr(ex)[:200]) from ex
         raw: List[Any] = []
         if want_raw:
             import fastavro
@@ -435,7 +531,7 @@ def gen_manifest_case(rng) -> Dict[str, Any]:
     ncols = rng.choice([1, 2, 3, 4])
     pool = NUMERIC_KINDS if rng.random() < 0.6 else list(DOMAIN)
     kinds = [rng.choice(pool) for _ in range(ncols)]
-    ids = rng.sample(range(1, 10), ncols)
+    ids = accepted_field_ids(rng, ncols, 0.3)           # whatever the real Schema constructor accepts as field ids
     nadd, nex = rng.choice([0, 1, 1, 2, 3]), rng.choice([0, 0, 1, 2])
     if nadd + nex == 0:
         nadd = 1
@@ -467,37 +563,55 @@ def gen_manifest_case(rng) -> Dict[str, Any]:
                 a, b = gen_column_bounds(rng, kind)
             lo[fid], hi[fid] = a, b
         files.append((lo, hi))
-    return {"kinds": kinds, "ids": ids, "added": files[:nadd], "existing": files[nadd:]}
+    return {"kinds": kinds, "ids": ids, "added": files[:nadd], "existing": files[nadd:], "drop": rng.randrange(4)}
 
 
 def manifest_case_json(case: Dict[str, Any]) -> Dict[str, Any]:
-    return {"manifest": True, "kinds": case["kinds"], "ids": case["ids"],
+    return {"manifest": True, "kinds": case["kinds"], "ids": case["ids"], "drop": case.get("drop", 0),
             "added": [[bmap_json(lo), bmap_json(hi)] for lo, hi in case["added"]],
             "existing": [[bmap_json(lo), bmap_json(hi)] for lo, hi in case["existing"]]}
 
 
 def manifest_case_unjson(j: Dict[str, Any]) -> Dict[str, Any]:
-    return {"kinds": j["kinds"], "ids": j["ids"], "added": [(bmap_unjson(lo), bmap_unjson(hi)) for lo, hi in j["added"]],
+    return {"kinds": j["kinds"], "ids": j["ids"], "drop": j.get("drop", 0), "added": [(bmap_unjson(lo), bmap_unjson(hi)) for lo, hi in j["added"]],
             "existing": [(bmap_unjson(lo), bmap_unjson(hi)) for lo, hi in j["existing"]]}
 
 
 def manifest_case_problems(bench: ManifestBench, case: Dict[str, Any]) -> List[Dict[str, Any]]:
-    """Implementation only: every entry of the manifest comes back in its place with its own bounds, value AND type -- from the
-    first manifest written for these DataFile objects, and from a second one written from the same objects."""
+    """Implementation only: every entry of the manifest comes back in its place with its own bounds -- under its own FIELD ID, value
+    AND type -- (1) from the first manifest written for these DataFile objects, (2) from a second one written from the same objects
+    (a retried commit), and (3) from the manifest a partial delete writes: the DataFiles READ from the first manifest (fresh objects,
+    not yet looked into by any filter), minus one, carried over as EXISTING entries."""
     inputs = case["added"] + case["existing"]
-    written, back1, _raw = bench.trip(case["added"], case["existing"])
+    nadd = len(case["added"])
+    fresh: List[Any] = []
+    written, back1, _raw = bench.trip(case["added"], case["existing"], second_read=fresh)
     paths = [w.file_path for w in written]
+    trips: List[Tuple[str, List[Tuple[Any, Any]], List[str], List[Any]]] = [("", inputs, paths, back1)]
     try:
-        _w, back2, _raw = bench.trip([], [], objects=(written[:len(case["added"])], written[len(case["added"]):]))
+        _w, back2, _raw = bench.trip([], [], objects=(written[:nadd], written[nadd:]))
+    except ManifestUnreadable:
+        raise
     except Exception as e:      # noqa: BLE001
         return [{"what": f"writing a second manifest from the same DataFile objects raises {e!r}"[:300], "from": "rewrite", "to": "raises"}]
+    trips.append((" (second manifest written from the same DataFile objects)", inputs, paths, back2))
+    if len(fresh) == len(inputs) and len(fresh) >= 2:
+        drop = case.get("drop", 0) % len(fresh)
+        keep = [i for i in range(len(fresh)) if i != drop]
+        try:
+            _w, back3, _raw = bench.trip([], [], objects=([], [fresh[i] for i in keep]))
+        except ManifestUnreadable:
+            raise
+        except Exception as e:      # noqa: BLE001
+            return [{"what": f"rewriting the manifest from the DataFiles read back (entry {drop} deleted) raises {e!r}"[:300], "from": "rewrite", "to": "raises"}]
+        trips.append((f" (manifest rewritten by a partial delete: the DataFiles read back, entry {drop} removed, carried over as EXISTING)",
+                      [inputs[i] for i in keep], [paths[i] for i in keep], back3))
     out = []
-    for trip_no, back in ((1, back1), (2, back2)):
-        tn = "" if trip_no == 1 else " (second manifest written from the same DataFile objects)"
-        if len(back) != len(inputs):
-            out.append({"what": f"{len(inputs)} entries written, {len(back)} read back{tn}", "from": "list", "to": "list"})
+    for tn, ins, pths, back in trips:
+        if len(back) != len(ins):
+            out.append({"what": f"{len(ins)} entries written, {len(back)} read back{tn}", "from": "list", "to": "list"})
             continue
-        for i, ((olo, ohi), path, b) in enumerate(zip(inputs, paths, back)):
+        for i, ((olo, ohi), path, b) in enumerate(zip(ins, pths, back)):
             if path != b.file_path:
                 out.append({"what": f"entry {i}: file {path} came back as {b.file_path}{tn}", "from": "path", "to": "path"})
                 continue
@@ -505,13 +619,16 @@ def manifest_case_problems(bench: ManifestBench, case: Dict[str, Any]) -> List[D
                 if bounds_same(ow, bw):
                     continue
                 o_, b_ = ow or {}, bw or {}
-                if set(o_) != set(b_):
-                    out.append({"what": f"entry {i}: {side} bounds of fields {sorted(o_, key=repr)} came back for fields {sorted(b_, key=repr)}{tn}",
-                                "from": "ids", "to": "ids"})
+                if sorted(map(id_text, o_)) != sorted(map(id_text, b_)):
+                    merged = len(b_) < len(o_)
+                    out.append({"what": f"entry {i}: {side} bounds stored under the field ids [{', '.join(map(id_text, o_))}] came back under "
+                                        f"[{', '.join(map(id_text, b_))}]{tn}" +
+                                        (" -- two columns' bounds collapsed into one key: str(id) is the same for both" if merged else ""),
+                                "from": "ids", "to": "merged" if merged else "renamed"})
                     continue
                 for k in o_:
                     if not same(o_[k], b_[k]):
-                        out.append({"what": f"entry {i} ({'ADDED' if i < len(case['added']) else 'EXISTING'}), field {k}: {side} bound "
+                        out.append({"what": f"entry {i}, field {k!r}: {side} bound "
                                             f"{o_[k]!r} ({type(o_[k]).__name__}) came back from the manifest as {b_[k]!r} ({type(b_[k]).__name__}){tn}",
                                     "from": type(o_[k]).__name__, "to": type(b_[k]).__name__})
     return out
@@ -523,12 +640,19 @@ def oracle_manifest(ctx, bench: ManifestBench) -> List[Dict[str, Any]]:
     cases = [gen_manifest_case(ctx.rng) for _ in range(n)]
     bad = 0
     nbounds = 0
+    unreadable = 0
     for case in cases:
         ctx.count(1, ("manifest", repr(case)))
         nbounds += sum(len(lo or {}) + len(hi or {}) for lo, hi in case["added"] + case["existing"])
-        for pr in manifest_case_problems(bench, case):
+        try:
+            problems = manifest_case_problems(bench, case)
+        except ManifestUnreadable:
+            unreadable += 1
+            continue
+        for pr in problems:
             bad += 1
             ctx.violation(f"manifest-roundtrip:{pr['from']}-as-{pr['to']}", pr["what"], manifest_case_json(case))
+    ctx.stats["manifest_oracle_unreadable_for_accepted_ids_not_judged"] = unreadable
     ctx.stats["manifest_oracle_manifests"] = n
     ctx.stats["manifest_oracle_bounds"] = nbounds
     ctx.stats["manifest_oracle_bad_bounds"] = bad
@@ -549,9 +673,13 @@ def gen_layouts(rng, kind: str, n: int) -> List[Dict[str, Any]]:
         others = [k for k in ("string", "long", "double", "date", "timestamp") if k != kind]
     out = [dict(PLAIN_LAYOUT)]
     for _ in range(n):
-        out.append({"before": [rng.choice(others) for _ in range(rng.choice([0, 1, 1, 2]))],
-                    "after": [rng.choice(others) for _ in range(rng.choice([0, 0, 1]))],
-                    "siblings": rng.choice([0, 0, 1, 2]), "existing": rng.random() < 0.3})
+        lay = {"before": [rng.choice(others + [kind]) for _ in range(rng.choice([0, 1, 1, 2]))],
+               "after": [rng.choice(others + [kind]) for _ in range(rng.choice([0, 0, 1]))],
+               "siblings": rng.choice([0, 0, 1, 2]), "existing": rng.random() < 0.3}
+        if rng.random() < 0.5:
+            # the schema's field ids: whatever the real Schema constructor accepts (default: 1, 2, 3 ... in column order)
+            lay["ids"] = accepted_field_ids(rng, len(lay["before"]) + 1 + len(lay["after"]), 0.6)
+        out.append(lay)
     return out
 
 
@@ -563,9 +691,17 @@ def prepare_file(bench: ManifestBench, kind: str, vs: List[Any], layout: Dict[st
     from datashard.data_structures import Schema
     cols = [(f"p{i}", k) for i, k in enumerate(layout["before"])] + [("c", kind)] + \
            [(f"q{i}", k) for i, k in enumerate(layout["after"])]
-    fields = [{"id": i + 1, "name": n, "type": k, "required": False} for i, (n, k) in enumerate(cols)]
-    fid = len(layout["before"]) + 1
-    data = {n: pa.array([v if n == "c" else twin_value(k, v) for v in vs], arrow_type(k)) for n, k in cols}
+    ids = layout.get("ids") or list(range(1, len(cols) + 1))
+    fields = [{"id": i, "name": n, "type": k, "required": False} for i, (n, k) in zip(ids, cols)]
+    fid = ids[len(layout["before"])]
+    # companion columns hold, row by row, the value equal to the tested column's where their kind has one -- or (same-kind
+    # companions) the NEXT value of the domain: a different range under a different field id
+    def companion(n: str, k: str, v: Any) -> Any:
+        if k != kind:
+            return twin_value(k, v)
+        dom = DOMAIN[kind]
+        return None if v is None else dom[([j for j, d in enumerate(dom) if same(d, v)] or [0])[0] + 1 - len(dom)]
+    data = {n: pa.array([v if n == "c" else companion(n, k, v) for v in vs], arrow_type(k)) for n, k in cols}
     table = pa.table(data)
     dfm = DataFileManager.__new__(DataFileManager)
     lo, hi = DataFileManager._compute_column_bounds(dfm, table, Schema(schema_id=1, fields=fields))
@@ -612,7 +748,8 @@ def unsound_text(bad: Dict[str, Any]) -> str:
     lay = bad["layout"]
     where = ""
     if lay["before"] or lay["after"] or lay["siblings"] or lay["existing"]:
-        where = (f" (columns before {lay['before']}, after {lay['after']}, {lay['siblings']} sibling file(s) in the manifest, "
+        ids = f", field ids [{', '.join(map(id_text, lay['ids']))}]" if lay.get("ids") else ""
+        where = (f" (columns before {lay['before']}, after {lay['after']}{ids}, {lay['siblings']} sibling file(s) in the manifest, "
                  f"{'EXISTING' if lay['existing'] else 'ADDED'} entry; bounds read back {bad['lower']} .. {bad['upper']})")
     return f"file {bad['values']} skipped for {bad['op']} {bad['literal']} although pyarrow selects {bad['rows_lost']}{where}"
 
@@ -620,6 +757,7 @@ def unsound_text(bad: Dict[str, Any]) -> str:
 def oracle_unsound(ctx, bench: ManifestBench) -> None:
     n = 0
     nfiles = 0
+    unreadable = 0
     cross = [[x] for x in (0.1, 0.5, 5.5, 2, 1, 0, True, NAN, float.fromhex("0x1.99999a0000000p-4"))]
     for kind, dom in DOMAIN.items():
         sets = multisets(kind, 3 if ctx.tier == "thorough" else 2, ctx.rng, None if ctx.tier == "thorough" else 40)
@@ -627,7 +765,11 @@ def oracle_unsound(ctx, bench: ManifestBench) -> None:
         for vs in sets:
             for layout in gen_layouts(ctx.rng, kind, 3 if ctx.tier == "quick" else 5):
                 plain = layout == PLAIN_LAYOUT
-                prepared = prepare_file(bench, kind, vs, layout)
+                try:
+                    prepared = prepare_file(bench, kind, vs, layout)
+                except ManifestUnreadable:
+                    unreadable += 1
+                    continue
                 nfiles += 1
                 # literals: the file's own values in every type they have a twin in, plus cross-kind literals
                 own = []
@@ -658,6 +800,7 @@ def oracle_unsound(ctx, bench: ManifestBench) -> None:
     ctx.count(n)
     ctx.stats["unsound_oracle_cases"] = n
     ctx.stats["unsound_oracle_files_through_a_real_manifest"] = nfiles
+    ctx.stats["unsound_oracle_unreadable_manifests_not_judged"] = unreadable
 
 
 # the end-to-end oracle also covers column types for which the writer stores NO bounds (binary): pruning must then
@@ -783,7 +926,7 @@ def oracle_e2e(ctx) -> None:
     from datashard import create_table
     from datashard.data_structures import Schema
     rng = ctx.rng
-    ntables = 32 if ctx.tier == "quick" else 240
+    ntables = 40 if ctx.tier == "quick" else 300
     kinds = list(E2E_DOMAIN)
     total = 0
     skipped_raise = 0
@@ -791,10 +934,20 @@ def oracle_e2e(ctx) -> None:
     retried = 0
     multi = 0
     deletes = 0
+    idtables = 0
+    rewrites = 0
+    unusable = 0
     for t in range(ntables):
         twins = False
+        idfamily = False
         cols = rng.sample(kinds, rng.choice([1, 2, 3]))
-        if t % 4 == 0:
+        if t % 5 == 4:
+            # field-id family: two (or three) columns of the SAME kind holding different ranges, under whatever field ids the
+            # real Schema constructor accepts (ids that differ as Python objects but not as manifest keys are the point)
+            idfamily = True
+            k0 = rng.choice(["long", "long", "string", "int", "double", "date"])
+            cols = [k0, k0] + ([rng.choice([k0, "string", "long"])] if rng.random() < 0.4 else [])
+        elif t % 4 == 0:
             cols = ["binary", rng.choice([k for k in kinds if k != "binary"])]     # a column without bounds next to one with bounds
         elif t % 4 == 1:
             cols = [rng.choice(["date", "timestamp"]), rng.choice([k for k in kinds if k not in ("date", "timestamp")])]
@@ -803,7 +956,16 @@ def oracle_e2e(ctx) -> None:
             # NaN and NULL rows, single-valued files
             twins = True
             cols = rng.sample(NUMERIC_KINDS, rng.choice([2, 3]))
-        fields = [{"id": i + 1, "name": f"c{i}", "type": k, "required": False} for i, k in enumerate(cols)]
+        if t % 3 == 0 and not twins and "string" not in cols and len(cols) < 3 and rng.random() < 0.5:
+            cols = cols + ["string"]       # (string bounds are the ones every operator can prune on after a manifest rewrite)
+        if idfamily:
+            ids = accepted_field_ids(rng, len(cols), 0.9, 0.85)
+            idtables += 1
+        elif rng.random() < 0.4:
+            ids = accepted_field_ids(rng, len(cols), 0.0)      # ints of any magnitude in any order
+        else:
+            ids = list(range(1, len(cols) + 1))
+        fields = [{"id": i, "name": f"c{n}", "type": k, "required": False} for n, (i, k) in enumerate(zip(ids, cols))]
         schema = Schema(schema_id=1, fields=fields)
         path = os.path.join(ctx.scratch, f"t{t}")
         table = create_table(path, schema)
@@ -821,8 +983,18 @@ def oracle_e2e(ctx) -> None:
             return recs
         steps: List[Dict[str, Any]] = []
         nfiles = 0
-        for _ in range(rng.choice([1, 2, 3, 4])):
+        # every third table: several files appended by ONE transaction, then a delete of one of them -- the partial delete rewrites
+        # their manifest from the DataFiles it read back (survivors carried over as EXISTING entries) -- then whatever comes
+        shape = [None] * rng.choice([1, 2, 3, 4])
+        if t % 3 == 0:
+            shape = ["multi", "delete"] + [None] * rng.choice([0, 1])
+            rewrites += 1
+        for forced in shape:
             r = rng.random()
+            if forced == "multi":
+                r = 0.3
+            elif forced == "delete":
+                r = 0.0
             if nfiles >= 2 and r < 0.2:
                 step: Dict[str, Any] = {"op": "delete", "index": rng.randrange(8)}
                 deletes += 1
@@ -835,7 +1007,15 @@ def oracle_e2e(ctx) -> None:
                 retried += 1 if step["retried"] else 0
                 multi += 1 if nf > 1 else 0
                 nfiles += nf
-            e2e_apply_step(table, step)
+            try:
+                e2e_apply_step(table, step)
+            except Exception:       # noqa: BLE001
+                if all(type(i) is int for i in ids):
+                    raise
+                # a schema with non-int field ids the constructor accepted, whose manifests cannot be read back: every read of the
+                # table fails, pruned or not -- nothing to compare; the history stops here
+                unusable += 1
+                break
             steps.append(step)
         files = [f for st in steps if st["op"] == "append" for f in st["files"]]
         # directed: the null tests on EVERY column (columns without stored bounds included), alone and next to a comparison
@@ -934,6 +1114,11 @@ def oracle_e2e(ctx) -> None:
     ctx.stats["e2e_appends_committed_after_one_retry"] = retried
     ctx.stats["e2e_multi_file_transactions"] = multi
     ctx.stats["e2e_partial_or_full_deletes"] = deletes
+    ctx.stats["e2e_tables_multi_append_then_partial_delete"] = rewrites
+    ctx.stats["e2e_field_id_family_tables"] = idtables
+    ctx.stats["e2e_tables_unreadable_after_accepted_non_int_ids"] = unusable
+    ctx.stats["field_ids_non_int_offered_to_Schema"] = ID_STATS["offered_non_int"]
+    ctx.stats["field_ids_non_int_accepted_by_Schema"] = ID_STATS["accepted_non_int"]
     ctx.stats["e2e_unpruned_raises_skipped"] = skipped_raise
     ctx.stats["e2e_differing"] = differing
 
@@ -1002,6 +1187,9 @@ def corr_manifest(ctx, bench: ManifestBench, cases: List[Dict[str, Any]]) -> Non
     rng = ctx.rng
     cases = [c for c in cases if all(not (isinstance(v, int) and not isinstance(v, bool) and abs(v) > 2**200)
                                      for lo, hi in c["added"] + c["existing"] for b in (lo, hi) for v in (b or {}).values())]
+    # Model/Manifest13.v speaks of int field ids (what Schema admits -- Props/C13.v C13_schema_ids_are_ints); the general key
+    # trip, any Python object as id, is the `keys` correspondence below
+    cases = [c for c in cases if all(type(i) is int for i in c["ids"])]
     if ctx.tier == "quick":
         cases = cases[:120]
     twin_lits = [0, 1, 2, 5, -1, 0.0, 1.0, 2.0, 5.0, False, True, "123", 123]
@@ -1122,11 +1310,23 @@ def replay(ctx, payload) -> int:
     if "rows_lost" in case:
         vs = [val_unjson(v) for v in case["values"]]
         lit = val_unjson(case["literal"])
-        bad = unsound_case(case["kind"], vs, case["op"], lit, case.get("layout"), bench=ManifestBench(ctx, "replay-bench"))
+        try:
+            bad = unsound_case(case["kind"], vs, case["op"], lit, case.get("layout"), bench=ManifestBench(ctx, "replay-bench"))
+        except (ValueError, ManifestUnreadable) as e:
+            print("replay: passes now (the schema / manifest of the case is refused: " + repr(e)[:200] + ")")
+            return 0
         print("replay:", "STILL FAILS " + unsound_text(bad) if bad else "passes now")
         return 1 if bad else 0
     if case.get("manifest"):
-        problems = manifest_case_problems(ManifestBench(ctx, "replay-bench"), manifest_case_unjson(case))
+        mcase = manifest_case_unjson(case)
+        if not schema_accepts(mcase["ids"]):
+            print("replay: passes now (the Schema constructor refuses the field ids [" + ", ".join(map(id_text, mcase["ids"])) + "])")
+            return 0
+        try:
+            problems = manifest_case_problems(ManifestBench(ctx, "replay-bench"), mcase)
+        except ManifestUnreadable as e:
+            print("replay: not judged (the manifest written for these field ids cannot be read back: " + str(e) + ")")
+            return 0
         print("replay:", "STILL FAILS: " + "; ".join(p["what"] for p in problems[:4]) if problems else "passes now")
         return 1 if problems else 0
     if case.get("e2e") and "steps" in case:
@@ -1134,7 +1334,11 @@ def replay(ctx, payload) -> int:
         from datashard.data_structures import Schema
         path = os.path.join(ctx.scratch, "replay-e2e")
         shutil.rmtree(path, ignore_errors=True)
-        table = create_table(path, Schema(schema_id=1, fields=case["schema"]))
+        try:
+            table = create_table(path, Schema(schema_id=1, fields=case["schema"]))
+        except ValueError as e:
+            print("replay: passes now (the Schema constructor refuses the case's schema: " + str(e)[:200] + ")")
+            return 0
         for st in steps_unjson(case["steps"]):
             e2e_apply_step(table, st)
         flt = {}
